@@ -445,3 +445,43 @@ Theorem c03_code_write_chunk_is_model : forall input avail maxc,
 Proof. exact write_chunk_gen. Qed.
 Print Assumptions c03_code_chunk_size.
 Print Assumptions c03_code_write_chunk_is_model.
+
+(* ================================================================== the chunk writer's code itself (whole functions translated from the source) *)
+(** [theories/Gen2.v] is regenerated on every run by tools/rs2coq2.py from src/body.rs: [BodyWriter::write] with its
+    [while write_chunk(..) {}] loop, [write_chunk] (size line, data, CRLF written all-or-nothing), [finish] (the terminator).
+    proofs/Gen2_equiv_body.v proves the translation equivalent to the model's [writer_write]: same new mode / ended flag, same input
+    consumed, the model's bytes appended to what was written before, the available room reduced by exactly their length.  So every
+    theorem of this file about what [writer_write] emits (c03_call .. c03_valid) is a statement about the code as it is in the
+    repository now.  Trusted: the translator (incl. the all-or-nothing reading of Writer::try_write over std::io::Cursor). *)
+From Hoot Require Import GenLib Gen2.
+From Hoot.proofs Require Import Gen2_equiv_body Gen2_transport.
+Theorem c03_code_write_equiv : forall e input avail out0,
+  wr_rel avail out0 (gen_bw_write SChunked e input avail out0) (writer_write {| w_mode := SChunked; w_ended := e |} input avail).
+Proof. intros. apply gen_bw_write_equiv. exact I. Qed.
+Theorem c03_code_write_ok : forall e input avail out0 w' used bs,
+  writer_write {| w_mode := SChunked; w_ended := e |} input avail = Ok (w', used, bs) ->
+  gen_bw_write SChunked e input avail out0 = Ok (w_mode w', w_ended w', avail - len bs, out0 ++ bs, used) /\ len bs <= avail.
+Proof. intros. apply gen_write_ok_of_model; [exact I|assumption]. Qed.
+Theorem c03_code_finish : forall m e avail out,
+  gen_bw_finish m e avail out =
+  if w_is_chunked {| w_mode := m; w_ended := e |}
+  then (if len TERMINATOR <=? avail then Ok (avail - len TERMINATOR, out ++ TERMINATOR, true) else Ok (avail, out, false))
+  else Ok (avail, out, true).
+Proof. exact gen_bw_finish_spec. Qed.
+Theorem c03_code_write_chunk : forall input iu avail out maxc,
+  gen_body_write_chunk input iu avail out maxc =
+  match write_chunk input avail maxc with
+  | None => Ok (iu, avail, out, false)
+  | Some (n, o) => Ok (iu + n, avail - len o, out ++ o, n <? len input)
+  end.
+Proof. exact gen_body_write_chunk_spec. Qed.
+Example c03_code_nonvacuous :
+  gen_bw_write SChunked false (s2b "hello") 100 [] = Ok (SChunked, false, 90, s2b "5" ++ CRLF ++ s2b "hello" ++ CRLF, 5)
+  /\ gen_bw_write SChunked false [] 4 [] = Ok (SChunked, false, 4, [], 0)
+  /\ gen_bw_write SChunked false [] 5 [] = Ok (SChunked, true, 0, TERMINATOR, 0).
+Proof. vm_compute. repeat split; reflexivity. Qed.
+Print Assumptions c03_code_write_equiv.
+Print Assumptions c03_code_write_ok.
+Print Assumptions c03_code_finish.
+Print Assumptions c03_code_write_chunk.
+Print Assumptions c03_code_nonvacuous.
